@@ -94,16 +94,16 @@ package validate
 //@ pred hasMsg(s []error, e error) = exists(i, 0, len(s), msg(s[i]) == msg(e))
 
 //@ func (*Result).AddErrors
-//@   requires r != nil && wfErrs(r.Errors)
+//@   requires r != nil && wfErrs(r.Errors) && ownsE(r)
 //@   requires arr(errors) != arr(r.Errors) || len(errors) == 0
 //@   modifies r.Errors, elems(r.Errors)
-//@   ensures[C20] wfErrs(r.Errors)
+//@   ensures[C20] wfErrs(r.Errors) && ownsE(r)
 //@   ensures[C20] len(r.Errors) >= old(len(r.Errors)) && forall(i, 0, old(len(r.Errors)), r.Errors[i] == old(r.Errors[i]))
 //@   ensures[C20] forall(j, 0, len(errors), implies(errors[j] != nil, hasMsg(r.Errors, errors[j])))
 //@   ensures[C20,local] forall(i, old(len(r.Errors)), len(r.Errors), exists(j, 0, len(errors), errors[j] == r.Errors[i]))
 //@   ensures[C20] arr(r.Errors) == old(arr(r.Errors)) || fresh(arr(r.Errors))
 //@   loop 1 invariant -1 <= idx1 && idx1 < len(errors) || (idx1 == -1 && len(errors) == 0)
-//@   loop 1 invariant nonnilE(r.Errors)
+//@   loop 1 invariant nonnilE(r.Errors) && ownsE(r)
 //@   loop 1 invariant nodupE(r.Errors)
 //@   loop 1 invariant len(r.Errors) >= old(len(r.Errors)) && forall(i, 0, old(len(r.Errors)), r.Errors[i] == old(r.Errors[i]))
 //@   loop 1 invariant forall(j, 0, idx1 + 1, implies(errors[j] != nil, hasMsg(r.Errors, errors[j])))
@@ -114,16 +114,16 @@ package validate
 //@   loop 2 invariant forall(k, 0, idx2 + 1, msg(r.Errors[k]) != msg(e))
 
 //@ func (*Result).AddWarnings
-//@   requires r != nil && wfErrs(r.Warnings)
+//@   requires r != nil && wfErrs(r.Warnings) && ownsW(r)
 //@   requires arr(warnings) != arr(r.Warnings) || len(warnings) == 0
 //@   modifies r.Warnings, elems(r.Warnings)
-//@   ensures[C20] wfErrs(r.Warnings)
+//@   ensures[C20] wfErrs(r.Warnings) && ownsW(r)
 //@   ensures[C20] len(r.Warnings) >= old(len(r.Warnings)) && forall(i, 0, old(len(r.Warnings)), r.Warnings[i] == old(r.Warnings[i]))
 //@   ensures[C20] forall(j, 0, len(warnings), implies(warnings[j] != nil, hasMsg(r.Warnings, warnings[j])))
 //@   ensures[C20,local] forall(i, old(len(r.Warnings)), len(r.Warnings), exists(j, 0, len(warnings), warnings[j] == r.Warnings[i]))
 //@   ensures[C20] arr(r.Warnings) == old(arr(r.Warnings)) || fresh(arr(r.Warnings))
 //@   loop 1 invariant -1 <= idx1 && idx1 < len(warnings) || (idx1 == -1 && len(warnings) == 0)
-//@   loop 1 invariant nonnilE(r.Warnings)
+//@   loop 1 invariant nonnilE(r.Warnings) && ownsW(r)
 //@   loop 1 invariant nodupE(r.Warnings)
 //@   loop 1 invariant len(r.Warnings) >= old(len(r.Warnings)) && forall(i, 0, old(len(r.Warnings)), r.Warnings[i] == old(r.Warnings[i]))
 //@   loop 1 invariant forall(j, 0, idx1 + 1, implies(warnings[j] != nil, hasMsg(r.Warnings, warnings[j])))
@@ -327,6 +327,7 @@ package validate
 //@ func (resultsPool).RedeemResult
 //@   assume p.Pool != nil
 //@   requires[C04,C11] s != nil && (s == emptyResult || !redeemed(s))
+//@   requires[C04] s == emptyResult || (ownsArrays(s) && sepEW(s))
 //@   modifies redeemed(s)
 //@   ensures[C04] implies(s != emptyResult, redeemed(s))
 //@   ensures[C04] implies(s == emptyResult, redeemed(s) == old(redeemed(s)))
@@ -335,6 +336,7 @@ package validate
 //@ func (*Result).cleared
 //@   requires r != nil
 //@   modifies all(r), mapof(r.cachedFieldSchemata), mapof(r.cachedItemSchemata)
+//@   ensures[C04,C20] implies(old(ownsArrays(r)), ownsArrays(r))
 //@   ensures[C04,C20] result == r && len(r.Errors) == 0 && len(r.Warnings) == 0 && r.MatchCount == 0 && r.data == nil
 //@   ensures[C04] r.rootObjectSchemata.one == nil && len(r.rootObjectSchemata.multiple) == 0 && len(r.fieldSchemata) == 0 && len(r.itemSchemata) == 0
 //@   ensures[C04] r.wantsRedeemOnMerge
@@ -349,6 +351,8 @@ package validate
 //@   assume p.Pool != nil
 //@   assume pooltag(p.Pool) == tidof("*Result")
 //@   assume !redeemed(emptyResult)
+//@   assume_result ownsArrays(result) && sepEW(result)
+//@   ensures[C04,C20] wfRes(result)
 //@   recycled result
 //@   modifies ghost("G$redeemed")
 //@   ensures[C04] result != nil && !redeemed(result) && result != emptyResult
@@ -376,13 +380,16 @@ package validate
 //@ pred liveRes(o *Result) = o == nil || !redeemed(o)
 //@ pred disjointE(a []error, b []error) = arr(a) != arr(b) || len(a) == 0
 //@ pred sepEW(r *Result) = arr(r.Errors) != arr(r.Warnings) || arr(r.Errors) == nil
-//@ pred mergeableInto(r *Result, o *Result) = o != r && disjointE(o.Errors, r.Errors) && disjointE(o.Warnings, r.Warnings) && disjointE(o.Warnings, r.Errors) && disjointE(o.Errors, r.Warnings)
+//@ pred ownsE(r *Result) = arr(r.Errors) == nil || owner(arr(r.Errors)) == r
+//@ pred ownsW(r *Result) = arr(r.Warnings) == nil || owner(arr(r.Warnings)) == r
+//@ pred ownsArrays(r *Result) = ownsE(r) && ownsW(r)
+//@ pred mergeableInto(r *Result, o *Result) = o != r && ownsArrays(o)
 
 //@ func (*Result).mergeWithoutRootSchemata
-//@   requires r != nil && other != nil && wfErrs(r.Errors) && wfErrs(r.Warnings) && sepEW(r) && mergeableInto(r, other)
+//@   requires r != nil && other != nil && wfRes(r) && mergeableInto(r, other)
 //@   modifies r.Errors, r.Warnings, r.MatchCount, r.fieldSchemata, r.itemSchemata, r.cachedFieldSchemata, r.cachedItemSchemata, elems(r.Errors), elems(r.Warnings)
 //@   modifies heap("H$fieldSchemata$obj"), heap("H$fieldSchemata$field"), heap("H$itemSchemata$slice"), heap("H$itemSchemata$index"), heap("H$schemata$one"), heap("H$schemata$multiple")
-//@   ensures[C20] wfErrs(r.Errors) && wfErrs(r.Warnings) && sepEW(r)
+//@   ensures[C20] wfRes(r)
 //@   ensures[C20] len(r.Errors) >= old(len(r.Errors)) && forall(i, 0, old(len(r.Errors)), r.Errors[i] == old(r.Errors[i]))
 //@   ensures[C20] len(r.Warnings) >= old(len(r.Warnings)) && forall(i, 0, old(len(r.Warnings)), r.Warnings[i] == old(r.Warnings[i]))
 //@   ensures[C20] forall(j, 0, old(len(other.Errors)), implies(old(other.Errors[j]) != nil, hasMsg(r.Errors, old(other.Errors[j]))))
@@ -394,7 +401,7 @@ package validate
 // backing arrays with the receiver (the receiver never adopts an operand's array: independence, C20).
 // All call sites pass 1..3 operands: the body is verified once per operand count (case_len, loop unrolled)
 // and inlined at call sites, where the operand count is a literal.
-//@ pred wfRes(r *Result) = wfErrs(r.Errors) && wfErrs(r.Warnings) && sepEW(r)
+//@ pred wfRes(r *Result) = wfErrs(r.Errors) && wfErrs(r.Warnings) && sepEW(r) && ownsArrays(r)
 //@ pred mc(o *Result) = ite(o == nil, 0, o.MatchCount)
 //@ pred operandsOK(r *Result, others []*Result) = forall(j, 0, len(others), implies(others[j] != nil, !redeemed(others[j]) && mergeableInto(r, others[j]))) && forall(a, 0, len(others), forall(b, 0, len(others), implies(a < b && others[a] != nil, others[a] != others[b])))
 
@@ -448,6 +455,15 @@ package validate
 //@ func (*Result).AsError
 //@   requires r != nil
 //@   ensures[C20,C17] (result == nil) == (len(r.Errors) == 0)
+
+// ---------------------------------------------------------------------------
+// Object discipline of validation code (effects validation): which types are pooled validator objects, which other
+// types validation code writes at all, and which otherwise read-only types have scratch copies in a pool.
+//@ validator_types SchemaValidator, itemsValidator, HeaderValidator, ParamValidator, basicCommonValidator, basicSliceValidator, numberValidator, stringValidator, typeValidator, formatValidator, schemaSliceValidator, objectValidator, schemaPropsValidator
+//@ mutable_types Result, schemata, fieldSchemata, itemSchemata
+//@ pooled_types spec.Schema
+//@ owned_fields Result.Errors, Result.Warnings, Result.fieldSchemata, Result.itemSchemata, Result.cachedFieldSchemata, Result.cachedItemSchemata
+//@ owned_fields schemaPropsValidator.anyOfValidators, schemaPropsValidator.allOfValidators, schemaPropsValidator.oneOfValidators, objectValidator.splitPath
 
 // ---------------------------------------------------------------------------
 // Type invariants (visible-state: assumed whenever a field of an object that is not under construction
